@@ -2,7 +2,8 @@
 (***************************************************************************)
 (* C12: expressions parse with the documented precedence and grouping.     *)
 (* Every pair of adjacent binary operators in both groupings, every triple *)
-(* in all five groupings, every prefix / infix / index / call combination, *)
+(* in all five groupings (thorough: every chain of four operators in all   *)
+(* fourteen groupings), every prefix / infix / index / call combination, *)
 (* ternaries around and inside binary operators, and assignments (plain    *)
 (* and compound) whose right-hand side is a compound expression.  Each     *)
 (* tree is printed with minimal and with full parenthesisation; TLC checks *)
@@ -24,7 +25,15 @@ Un(o, e) == <<"un", o, e>>
 Ix(e, i) == <<"idx", e, i>>
 Cl(f, as) == <<"call", f, as>>
 Tn(c, a, b) == <<"tern", c, a, b>>
-A == Id("a")  B == Id("b")  C == Id("c")  D == Id("d")
+A == Id("a")  B == Id("b")  C == Id("c")  D == Id("d")  E5 == Id("e")
+
+\* every grouping of a chain of operators over leaves in order (Catalan many: 14 for four operators)
+RECURSIVE AllTrees(_, _)
+AllTrees(ops, leaves) ==
+  IF Len(ops) = 0 THEN {leaves[1]}
+  ELSE UNION {{Bn(ops[i], l, r) : l \in AllTrees(SubSeq(ops, 1, i - 1), SubSeq(leaves, 1, i)),
+                                  r \in AllTrees(SubSeq(ops, i + 1, Len(ops)), SubSeq(leaves, i + 1, Len(leaves)))}
+              : i \in 1..Len(ops)}
 
 Group3(sh, o1, o2, o3) ==
   CASE sh = 1 -> Bn(o1, A, Bn(o2, B, Bn(o3, C, D)))
@@ -74,6 +83,8 @@ Init ==
   \/ \E o1 \in 1..NB : row = [k |-> "pair0", o1 |-> BinOpList[o1], done |-> FALSE]
   \/ \E o1 \in 1..NB, sh \in 1..5 : row = [k |-> "triple0", o1 |-> BinOpList[o1], sh |-> sh, done |-> FALSE]
   \/ \E m \in 1..NMixed : row = [k |-> "mixed0", m |-> m, done |-> FALSE]
+  \/ /\ Tier = "thorough"
+     /\ \E o1 \in 1..NB, o2 \in 1..NB : row = [k |-> "quad0", o1 |-> o1, o2 |-> o2, done |-> FALSE]
   \/ \E a \in 1..Len(AsgOps) : row = [k |-> "asg0", op |-> AsgOps[a], done |-> FALSE]
 
 Next ==
@@ -85,6 +96,10 @@ Next ==
         /\ \E o2 \in 1..NB, o3 \in 1..NB :
              /\ (Tier = "thorough" \/ (o2 + 3 * o3 + row.sh) % 6 = 0)
              /\ row' = MkRow("triple", Group3(row.sh, row.o1, BinOpList[o2], BinOpList[o3]))
+     \/ /\ row.k = "quad0"
+        /\ \E o3 \in 1..NB, o4 \in 1..NB :
+             /\ \E t \in AllTrees(<<BinOpList[row.o1], BinOpList[row.o2], BinOpList[o3], BinOpList[o4]>>, <<A, B, C, D, E5>>) :
+                  row' = MkRow("quad", t)
      \/ /\ row.k = "mixed0"
         /\ \E o \in 1..NB, u \in 1..NP : row' = MkRow("mixed", Mixed(row.m, BinOpList[o], PrefixOps[u]))
      \/ /\ row.k = "asg0"
